@@ -3,6 +3,7 @@ package main
 // Evaluation of contract expressions over the symbolic state.
 
 import (
+	"os"
 	"fmt"
 	"go/constant"
 	"go/token"
@@ -175,6 +176,47 @@ func (c *Ctx) evalSpec(env *SpecEnv, e *SExpr) Value {
 		defer func() { st.Mem, st.Heap, st.Ghost = sm, sh, sg }()
 		return c.evalSpec(&n, e.Args[0])
 	case "unary":
+		if e.Op == "&" {
+			// &p.f: address of a field of the object p points to
+			a := e.Args[0]
+			if a.Kind != "sel" {
+				specError("& needs a field selection: %s", e)
+			}
+			base, ok := c.evalSpec(env, a.Args[0]).(PtrV)
+			if !ok || base.Nil {
+				specError("& needs a field of a pointed-to struct: %s", e)
+			}
+			if base.Sym != nil {
+				base = PtrV{Obj: c.materialise(env.st, base)}
+			}
+			var pt types.Type
+			switch {
+			case base.Heap:
+				pt = base.Elem
+			case base.Obj != nil:
+				pt = base.Obj.Typ
+			}
+			for _, pe := range base.Path {
+				switch u := under(pt).(type) {
+				case *types.Struct:
+					pt = u.Field(pe.Field).Type()
+				case *types.Array:
+					pt = u.Elem()
+				}
+			}
+			stt, ok := under(pt).(*types.Struct)
+			if !ok {
+				specError("& on a field of non-struct %s", pt)
+			}
+			for i := 0; i < stt.NumFields(); i++ {
+				if stt.Field(i).Name() == a.Name {
+					np := base
+					np.Path = append(append([]PathElem(nil), base.Path...), PathElem{Field: i})
+					return np
+				}
+			}
+			specError("no field %s in %s", a.Name, pt)
+		}
 		v := c.evalSpec(env, e.Args[0])
 		switch e.Op {
 		case "!":
@@ -562,6 +604,12 @@ func (c *Ctx) specIndex(env *SpecEnv, base Value, idx *Term) Value {
 			specError("index into nil slice in contract")
 		}
 		av := c.mem(st, b.Obj).(*ArrayV)
+		if isNum(idx) {
+			// logic semantics: an out-of-range element is an unspecified value (never a failure of the contract)
+			if k := c.constIdx(idx); k < 0 || k >= b.CLen {
+				return c.symbolic(st, b.Elem, "oob")
+			}
+		}
 		return c.readPath(st, av, []PathElem{{Idx: Arith("+", c.idx(int64(b.COff)), idx)}})
 	case StrV:
 		return c.strAt(st, b, idx)
@@ -1131,12 +1179,37 @@ func (c *Ctx) specCall(env *SpecEnv, e *SExpr) Value {
 				return iv.Val
 			}
 			return PtrV{Sym: iv.Sym, Typ: tt}
+		case "strOfRunes":
+			// strOfRunes(s, main, comb): s == string(append([]rune{main}, comb...)), decided on the structure of s
+			// (exact: UTF-8 rendering is injective on sequences once invalid runes are normalised to U+FFFD)
+			evalArgs()
+			sv, ok := args[0].(StrV)
+			if !ok {
+				specError("strOfRunes needs a string")
+			}
+			mt, ok1 := args[1].(*Term)
+			cv, ok2 := args[2].(SliceV)
+			if !ok1 || !ok2 {
+				specError("strOfRunes(s, main rune, comb []rune)")
+			}
+			return c.strOfRunes(env, sv, mt, cv)
+		case "dyn":
+			// dyn(e): the dynamic value boxed in interface value e (its dynamic type must be statically known)
+			evalArgs()
+			iv, ok := args[0].(IfaceV)
+			if !ok || iv.Dyn == nil {
+				specError("dyn: the dynamic type of the interface value is not known on this path")
+			}
+			return iv.Val
 		case "purecall":
 			// purecall("Color.RGB", i, args...): the i-th result of a function whose contract is marked `pure`
 			if len(e.Args) < 3 || e.Args[1].Kind != "str" || e.Args[2].Kind != "int" {
 				specError("purecall(\"Key\", index, args...)")
 			}
 			key := env.pkg + "." + e.Args[1].Name
+			if strings.Contains(e.Args[1].Name, "/") {
+				key = e.Args[1].Name
+			}
 			sp := c.Eng.Specs.Funcs[key]
 			if sp == nil || !sp.Pure {
 				specError("purecall: %s has no contract marked pure", key)
@@ -1152,11 +1225,11 @@ func (c *Ctx) specCall(env *SpecEnv, e *SExpr) Value {
 				if u, ok := v.(UntypedInt); ok {
 					v = c.untypedTo(u, c.sortOfBasic(fn.Params[i].Type()))
 				}
-				t, ok := v.(*Term)
+				at, ok := pureArgTerms(v)
 				if !ok {
-					specError("purecall arguments must be scalars")
+					specError("purecall arguments must be scalars or structs of scalars")
 				}
-				ts = append(ts, t)
+				ts = append(ts, at...)
 			}
 			return c.pureApp(key, fn.Signature, idx, ts)
 		case "has":
@@ -1336,8 +1409,23 @@ func (c *Ctx) seqEq(env *SpecEnv, a, b Value) *Term {
 		return And(cs...)
 	}
 	k := CanonBound("kq", c.IntSort())
-	return And(Eq(la, lb), Forall([]*Term{k}, Implies(And(Cmp("<=", c.idx(0), k, true), Cmp("<", k, la, true)),
+	expanded := And(Eq(la, lb), Forall([]*Term{k}, Implies(And(Cmp("<=", c.idx(0), k, true), Cmp("<", k, la, true)),
 		c.valueEq(st, c.specIndex(env, sa, k), c.specIndex(env, sb, k)))))
+	// Opaque form: an uninterpreted predicate of (contents, offset, length) of both sides, so that equal
+	// arguments give equal truth values by congruence (solvers do not do congruence on quantified formulas).
+	// For ground arguments the definition is assumed alongside (a definitional extension: always sound).
+	if os.Getenv("GOVC_NO_OPAQUE_SEQEQ") == "" && sa.Heap && sb.Heap {
+		lvs := c.leavesOf(sa.Elem)
+		if len(lvs) == 1 && lvs[0].Kind == "scalar" {
+			h := c.heapArr(st, lvs[0])
+			app := App("seqeq."+c.modeTag()+"."+sanitize(lvs[0].Key), BoolSort, Select(h, sa.Ref), sa.Off, la, Select(h, sb.Ref), sb.Off, lb)
+			if !app.open {
+				st.assume(Eq(app, expanded))
+			}
+			return app
+		}
+	}
+	return expanded
 }
 
 // applySpecFunc: non-recursive spec functions are macro-expanded; `rec` ones become UFs with
@@ -1688,4 +1776,67 @@ func (e *SpecEnv) inUnfold(name string) bool {
 		}
 	}
 	return false
+}
+
+// normRune: string conversion maps surrogates and out-of-range values to U+FFFD.
+func (c *Ctx) normRune(r *Term) *Term {
+	k := func(v int64) *Term { return NumC(big.NewInt(v), r.Sort) }
+	valid := Or(And(Cmp(">=", r, k(0), true), Cmp("<", r, k(0xD800), true)), And(Cmp(">=", r, k(0xE000), true), Cmp("<=", r, k(0x10FFFF), true)))
+	return Ite(valid, r, k(0xFFFD))
+}
+
+func (c *Ctx) strOfRunes(env *SpecEnv, s StrV, main *Term, comb SliceV) *Term {
+	_ = env.st
+	if s.Rope != nil {
+		ps := flattenRope(s)
+		if len(ps) == 1 {
+			s = ps[0]
+		}
+	}
+	clen := c.sliceLen(comb)
+	zero := c.idx(0)
+	switch {
+	case s.Spec == "ite":
+		cond := s.SArgs[0].(*Term)
+		return Ite(cond, c.strOfRunes(env, s.SArgs[1].(StrV), main, comb), c.strOfRunes(env, s.SArgs[2].(StrV), main, comb))
+	case s.Spec == "runestr":
+		r := s.SArgs[0].(*Term)
+		return And(Eq(clen, zero), Eq(c.normRune(r), c.normRune(main)))
+	case s.Spec == "runesstr":
+		arr, off, ln := s.SArgs[0].(*Term), s.SArgs[1].(*Term), s.SArgs[2].(*Term)
+		k := BoundVar("k", c.IntSort())
+		ce, ok := c.specIndex(env, comb, k).(*Term)
+		if !ok {
+			specError("strOfRunes: comb element is not a scalar")
+		}
+		return And(Eq(ln, Arith("+", clen, c.idx(1))),
+			Eq(c.normRune(Select(arr, off)), c.normRune(main)),
+			Forall([]*Term{k}, Implies(And(Cmp("<=", zero, k, true), Cmp("<", k, clen, true)),
+				Eq(c.normRune(Select(arr, Arith("+", off, Arith("+", k, c.idx(1))))), c.normRune(ce)))))
+	case s.Conc != nil:
+		rs := []rune(*s.Conc)
+		if len(rs) == 0 {
+			return False()
+		}
+		if !comb.Heap {
+			// concrete comb: compare rune by rune
+			if comb.Obj == nil && len(rs) == 1 || comb.Obj != nil && comb.CLen == len(rs)-1 {
+				cs := []*Term{Eq(c.normRune(main), NumC(big.NewInt(int64(rs[0])), main.Sort))}
+				for i := 1; i < len(rs); i++ {
+					ce := c.specIndex(env, comb, c.idx(int64(i-1))).(*Term)
+					cs = append(cs, Eq(c.normRune(ce), NumC(big.NewInt(int64(rs[i])), ce.Sort)))
+				}
+				return And(cs...)
+			}
+			return False()
+		}
+		cs := []*Term{Eq(clen, c.idx(int64(len(rs)-1))), Eq(c.normRune(main), NumC(big.NewInt(int64(rs[0])), main.Sort))}
+		for i := 1; i < len(rs); i++ {
+			ce := c.specIndex(env, comb, c.idx(int64(i-1))).(*Term)
+			cs = append(cs, Eq(c.normRune(ce), NumC(big.NewInt(int64(rs[i])), ce.Sort)))
+		}
+		return And(cs...)
+	}
+	specError("strOfRunes: unsupported string form %s", showValue(s))
+	return nil
 }
